@@ -100,6 +100,77 @@ Print Assumptions gaussian94_loses_cartesian_tag.
 Example gaussian94_example : g94_example_stmt.
 Proof. exact G94Spec.g94_example. Qed.
 
+(* ---- the whole NWChem file: electron section + ECP section (Model/NwchemEcp.v).  The ECP carries no momentum labels for its
+   highest potential (`ul`, read back as the highest of the others + 1): the round trip holds exactly when the highest momentum
+   is the second highest + 1 (or the only potential has momentum 0) - sufficient: contiguous momenta 0..lmax. ---- *)
+From BSE Require Import Model.NwchemEcp Proofs.NwchemEcpDefs.
+From BSE Require Proofs.NwchemEcpSpec.
+
+Theorem nwchem_ecp_roundtrip : nw_ecp_roundtrip_stmt.
+Proof. exact NwchemEcpSpec.nw_ecp_roundtrip_exact. Qed.
+Print Assumptions nwchem_ecp_roundtrip.
+
+Theorem nwchem_whole_file_roundtrip : nw_all_roundtrip_stmt.
+Proof. exact NwchemEcpSpec.nw_all_roundtrip_exact. Qed.
+Print Assumptions nwchem_whole_file_roundtrip.
+
+Theorem nwchem_whole_file_write_total : nw_all_write_total_stmt.
+Proof. exact NwchemEcpSpec.nw_all_write_total. Qed.
+Print Assumptions nwchem_whole_file_write_total.
+
+Theorem nwchem_ecp_contiguous_is_enough : nw_ecp_contiguous_stmt.
+Proof. exact NwchemEcpSpec.nw_ecp_contiguous. Qed.
+Print Assumptions nwchem_ecp_contiguous_is_enough.
+
+Theorem nwchem_ecp_no_number_lost : nw_ecp_no_number_lost_stmt.
+Proof. exact NwchemEcpSpec.nw_ecp_no_number_lost. Qed.
+Print Assumptions nwchem_ecp_no_number_lost.
+
+(* the known finding "nwchem ecp:am-gap" as a theorem about the model: momenta {0,1,3} read back as {0,1,2}; {0,2,3} are
+   unchanged; a single potential with momentum 2 reads back with momentum 0 *)
+Theorem nwchem_ecp_gap_refuted : nw_ecp_gap_counterexample_stmt.
+Proof. exact NwchemEcpSpec.nw_ecp_gap_counterexample. Qed.
+Print Assumptions nwchem_ecp_gap_refuted.
+
+Theorem nwchem_ecp_gap_below_is_fine : nw_ecp_gap_below_stmt.
+Proof. exact NwchemEcpSpec.nw_ecp_gap_below. Qed.
+Print Assumptions nwchem_ecp_gap_below_is_fine.
+
+Theorem nwchem_ecp_single_potential : nw_ecp_single_stmt.
+Proof. exact NwchemEcpSpec.nw_ecp_single. Qed.
+Print Assumptions nwchem_ecp_single_potential.
+
+Example nwchem_ecp_example : nw_ecp_example_stmt.
+Proof. exact NwchemEcpSpec.nw_ecp_example. Qed.
+
+(* ---- a third format: the electron section of the Turbomole pair (Model/Turbomole.v); input after uncontract_general /
+   uncontract_spdf(0) / sort_basis: one momentum and one contraction per shell ---- *)
+From BSE Require Import Model.Turbomole Proofs.TurbomoleDefs.
+From BSE Require Proofs.TurbomoleSpec.
+
+Theorem turbomole_write_total : tm_write_total_stmt.
+Proof. exact TurbomoleSpec.tm_write_total. Qed.
+Print Assumptions turbomole_write_total.
+
+Theorem turbomole_roundtrip : tm_roundtrip_stmt.
+Proof. exact TurbomoleSpec.tm_roundtrip_exact. Qed.
+Print Assumptions turbomole_roundtrip.
+
+Theorem turbomole_no_number_lost : tm_no_number_lost_stmt.
+Proof. exact TurbomoleSpec.tm_no_number_lost. Qed.
+Print Assumptions turbomole_no_number_lost.
+
+Theorem turbomole_every_role_roundtrips : tm_roles_stmt.
+Proof. exact TurbomoleSpec.tm_roles. Qed.
+Print Assumptions turbomole_every_role_roundtrips.
+
+Theorem turbomole_loses_cartesian_tag_and_region : tm_roundtrip_cartesian_stmt.
+Proof. exact TurbomoleSpec.tm_roundtrip_cartesian. Qed.
+Print Assumptions turbomole_loses_cartesian_tag_and_region.
+
+Example turbomole_example : tm_example_stmt.
+Proof. exact TurbomoleSpec.tm_example. Qed.
+
 Example roundtrip_demo :
   match write_matrix [[CStr "130.70932"; CStr "0.5"]; [CStr "1.5E-01"; CStr "-0.25"]] [8; 31]%Z true with
   | inr t => parse_primitive_matrix (splitlines t) = inr (["130.70932"; "0.5"], [["1.5E-01"; "-0.25"]])
